@@ -142,7 +142,9 @@ def run_C01(run):
     run.validate_batch(tr, "paths-flowB")
 
 
-BASE_EXPR = dict(MaxNodes=1, UseCat=True, UseVal=False, ElemNames={"a", "b"}, AttrNames=set(), TextVals={"1"}, WithComment=False)
+ALL_CAT = set(range(1, 9))
+SMALL_CAT = {1, 2, 3, 5, 6}
+BASE_EXPR = dict(MaxNodes=1, UseCat=True, UseVal=False, CatIds=ALL_CAT, ElemNames={"a", "b"}, AttrNames=set(), TextVals={"1"}, WithComment=False)
 
 
 def run_C02(run):
@@ -151,7 +153,7 @@ def run_C02(run):
     run.gen_and_replay("MC_Expr", consts(BASE_EXPR, Family="C02a-small" if q else "C02a", MaxNodes=4 if q else 5, UseCat=True),
                        name="preds-atoms", kind="sel-set")
     # (2) nesting depth 2, and/or/not combinations
-    run.gen_and_replay("MC_Expr", consts(BASE_EXPR, Family="C02b", MaxNodes=1 if q else 4, UseCat=True),
+    run.gen_and_replay("MC_Expr", consts(BASE_EXPR, Family="C02b", MaxNodes=1 if q else 4, UseCat=True, CatIds=SMALL_CAT if q else ALL_CAT),
                        name="preds-nested", kind="sel-set")
     # (3) two predicates on one step
     run.gen_and_replay("MC_Expr", consts(BASE_EXPR, Family="C02two", MaxNodes=1 if q else 4, UseCat=True),
@@ -204,7 +206,7 @@ def run_C04(run):
     # every call history of up to L calls on ONE compiled expression, for every
     # expression of the pool of stateful constructs; iterators abandoned after
     # every prefix; contexts in the same and in another document
-    run.hist("C04", 4 if q else 6, nslots=2, maxiters=3, docs_per=1 if q else 2)
+    run.hist("C04", 4 if q else 5, nslots=2, maxiters=3, docs_per=1 if q else 3)
     # the same node-set expressions as operands evaluated in place (scalar results): E;E;E...
     run.hist("C04ops", 3 if q else 4, nslots=2, maxiters=4, docs_per=2 if q else 4, stage="hist-inplace")
 
@@ -459,7 +461,7 @@ def run_C12(run):
 
 def run_C13(run):
     q = run.tier == "quick"
-    comp = dict(MaxNodes=4 if q else 5, UseCat=True, ElemNames={"a", "b"}, AttrNames={"a"}, TextVals={"1"}, WithComment=True,
+    comp = dict(MaxNodes=4 if q else 5, UseCat=True, CatIds=ALL_CAT, ElemNames={"a", "b"}, AttrNames={"a"}, TextVals={"1"}, WithComment=True,
                 RelAxes=AXES, PredMode=True)
     # (1) /addr(n)/p from every start node must select what p selects at n
     run.gen_and_replay("MC_Compose", comp, name="compose-addr", kind="sel-set")
